@@ -12,6 +12,13 @@ import AmVerif.Model.Json
     * everything else                                             → Float, nearest-even; an infinite result is
                                                                     the error "number out of range"
   Objects: entries inserted one after the other into a `BTreeMap` (`fromEntries`): last duplicate wins.
+
+  NOTE (finding C33 [float-text-parse]).  This is the parser of the SPECIFICATION (and of the
+  harness, whose serde_json has `float_roundtrip`).  The `automerge` CLI binary links serde_json
+  with default features only, whose decimal → f64 conversion is not correctly rounded outside the
+  exact fast path (≤ 15 significant digits, |effective exponent| ≤ 22): `914.0E-22` becomes
+  9.140000000000001e-20, `1.7976931348623158e308` is rejected as out of range.  On such literals
+  the model and the binary disagree, and the harness prints `! C33 [float-text-parse] …`.
 -/
 namespace AmVerif.JsonParse
 open AmVerif
